@@ -351,7 +351,7 @@ def main(argv=None):
         verif_seed = 0
     mod = load_prop(prop)
     import waitress
-    if not os.path.realpath(waitress.__file__).startswith("/repo/src/"):
+    if not os.path.realpath(waitress.__file__).startswith(os.path.join(os.environ.get("VERIF_REPO", "/repo"), "src") + "/"):
         print("HARNESS-ERROR waitress imported from %s" % waitress.__file__)
         return 2
 
